@@ -101,6 +101,31 @@ def fam_depfile():
     return Family("depfile", v, ["s1", "s2", "s3"], ["o1", "o2"], ["", "o1"], quick=True, quick4=True)
 
 
+def fam_gendep():
+    # a generator statement that also reports discovered dependencies (the shape of a build.ninja regeneration rule): the
+    # generator shortcut ("output newer than the declared inputs") knows nothing about the discovered input
+    b = M("base", [E("G", ["o1"], ["s1"], generator=True, extras=["s2"], deps="gcc"), E("C2", ["o2"], ["o1"])], default=["o2"])
+    v = [b,
+         retag(b, "tag-C2", "C2"),
+         change(b, "plain-depfile", "G", "deps-gcc-becomes-depfile", deps="depfile"),
+         change(b, "non-gen", "G", "generator-dropped", generator=False)]
+    return Family("gendep", v, ["s1", "s2"], ["o1", "o2"], ["", "o1"], quick=True, quick4=True)
+
+
+def fam_latedecl():
+    # the consumer (with a dependency file) is declared BEFORE the statements that produce its inputs: a phony group and a
+    # restat command that re-runs without changing its output; rules are registered - and their stored results looked up -
+    # in manifest order
+    b = M("base", [E("C2", ["o2"], ["o1"], imp=["grp"], extras=["s2"], deps="gcc"),
+                   E("GRP", ["grp"], ["s2"], phony=True),
+                   E("C1", ["o1"], ["s1"], imp=["s3"], restat=True)], default=["o2"])
+    v = [b,
+         retag(b, "tag-C1", "C1"),
+         change(b, "plain-depfile", "C2", "deps-gcc-becomes-depfile", deps="depfile"),
+         change(b, "no-restat", "C1", "restat-dropped", restat=False)]
+    return Family("latedecl", v, ["s1", "s2", "s3"], ["o1", "o2"], ["", "o1"], quick=True, quick4=True)
+
+
 def fam_multi():
     b = M("base", [E("C1", ["o1", "o2"], ["s1"]), E("C2", ["o3"], ["o1"]), E("C3", ["o4"], ["o2", "s2"])],
           default=["o3", "o4"])
@@ -302,7 +327,7 @@ def fam_twotargets():
 
 
 def all_families():
-    return [fam_chain(), fam_implicit(), fam_newimp(), fam_orderonly(), fam_oodep(), fam_depfile(), fam_multi(), fam_phony(), fam_alias(),
+    return [fam_chain(), fam_implicit(), fam_newimp(), fam_orderonly(), fam_oodep(), fam_depfile(), fam_gendep(), fam_latedecl(), fam_multi(), fam_phony(), fam_alias(),
             fam_restat(), fam_generator(), fam_pool(), fam_diamond(), fam_roots(), fam_genheader(), fam_depmulti(),
             fam_impprod(), fam_oochain(), fam_restatchain(), fam_fanin(), fam_selfgen(), fam_mixed(), fam_phonychain(),
             fam_twotargets()]
